@@ -2,8 +2,8 @@ SPECIFICATION Spec
 CONSTANTS
   KeyMode = "unique"
   CacheShared = FALSE
-  WithConvs = FALSE
-  MaxOps = 8
-INVARIANT Isolated
+  WithConvs = TRUE
+  MaxOps = 6
+INVARIANTS Isolated ConvIsolated
 VIEW StateView
 CHECK_DEADLOCK FALSE
